@@ -98,6 +98,7 @@ type H struct {
 	prof   string
 	viol   int
 	reported map[string]int
+	real     bool // real ts-store shards behind the nodes
 	nontrivial bool
 }
 
@@ -113,7 +114,7 @@ func (h *H) fail(format string, a ...any) {
 // set-up
 
 func (h *H) boot() {
-	h.cl = newCluster(h.root, h.n)
+	h.cl = newCluster(h.root, h.n, h.real)
 	for i := 0; i < h.n; i++ {
 		if err := h.cl.start(i, filepath.Join(h.root, fmt.Sprintf("n%d-life1", i))); err != nil {
 			h.fail("start node %d: %v", i, err)
@@ -209,6 +210,23 @@ func (h *H) settle() {
 	})
 	if !ok {
 		h.fail("group does not settle: %s", prev)
+		return
+	}
+	// a writer whose answer has been handed over by the commit loop may not have returned yet
+	// (goroutine scheduling); a writer whose proposal was lost never does: bounded extra wait
+	for _, w := range h.wr {
+		if w.res == "" && h.mir[w.node].up && !h.mir[w.node].gated {
+			w := w
+			waitFor(60*time.Millisecond, func() bool {
+				select {
+				case err := <-w.done:
+					w.res = classify(err)
+					return true
+				default:
+					return false
+				}
+			})
+		}
 	}
 }
 
@@ -264,6 +282,9 @@ func (h *H) quiet() bool {
 		}
 		if len(x.rn.GetCommitC()) != 0 && !h.mir[i].gated {
 			return false
+		}
+		if atomic.LoadInt32(&x.st.busy) != atomic.LoadInt32(&x.st.waiting) {
+			return false // an apply is inside the store (and not merely waiting at the gate)
 		}
 		if o.applied < o.commit && !(h.mir[i].gated) {
 			return false
@@ -426,6 +447,18 @@ func (h *H) explain() {
 				u = 1
 			}
 			h.emit(fmt.Sprintf("apply %d %d %d", i, f, u))
+			if e.kind == "write" && e.prop == i {
+				// the proposer applied the entry: its writer (if it still waits) is being answered
+				for _, w := range h.wr {
+					if w.uid == e.uid && w.node == i && w.life == x.life && w.res == "" {
+						select {
+						case err := <-w.done:
+							w.res = classify(err)
+						case <-time.After(20 * time.Second):
+						}
+					}
+				}
+			}
 		}
 		if target > m.applied {
 			m.applied = target
@@ -478,6 +511,14 @@ func natList[T any](l []T) string {
 	return strings.Join(s, ",")
 }
 
+// digestOp: with real shards only the merged view of a node's rows can be observed
+func (h *H) digestOp() string {
+	if h.real {
+		return "digestm"
+	}
+	return "digest"
+}
+
 func (h *H) digest() string {
 	var ack []string
 	ws := append([]*writer(nil), h.wr...)
@@ -519,23 +560,19 @@ func (h *H) digest() string {
 		if o.last > uint64(len(h.clog)) {
 			o.last = uint64(len(h.clog))
 		}
-		snp := 0
-		if o.hasSnp {
-			snp = 1
-		}
-		x.st.mu.Lock()
-		F, I, M := layerText(x.st.files), layerText(x.st.imm), layerText(x.st.mem)
-		x.st.mu.Unlock()
 		fsText := natList(entryFileFirsts(filepath.Join(x.dir, "wal", "__raft_entries__")))
-		if len(h.mir[i].holeLo) > 0 {
-			fsText = "~" // after a snapshot install the file layout is no longer the canonical one (C17 finding)
-		}
 		fText := fmt.Sprint(o.first)
 		if len(h.mir[i].holeLo) > 0 {
-			fText = "~"
+			fsText, fText = "~", "~" // after a snapshot install the file layout is no longer the canonical one (C17 finding)
 		}
-		parts = append(parts, fmt.Sprintf("n%d up f=%s l=%d fs=%s c=%d p=%d a=%d s=%d sc=%d snp=%d w=%d F=%s I=%s M=%s",
-			i, fText, o.last, fsText, o.commit, o.applied, h.mir[i].applied, o.snap, o.sc, snp, x.rn.VerifPending(), F, I, M))
+		line := fmt.Sprintf("n%d up f=%s l=%d fs=%s c=%d p=%d a=%d s=%d sc=%d snp=%s w=%d D=%s",
+			i, fText, o.last, fsText, o.commit, o.applied, h.mir[i].applied, o.snap, o.sc, natList(o.snps), x.rn.VerifPending(), x.st.mergedText())
+		if !h.real {
+			x.st.mu.Lock()
+			line += fmt.Sprintf(" F=%s I=%s M=%s", layerText(x.st.files), layerText(x.st.imm), layerText(x.st.mem))
+			x.st.mu.Unlock()
+		}
+		parts = append(parts, line)
 	}
 	return strings.Join(parts, " | ")
 }
@@ -635,7 +672,7 @@ func (h *H) check(line int) {
 			case h.inHole(n, uint64(idx)):
 				class, why = "dataless_snapshot_install", "the node was moved over the entry by a raft snapshot that carries no rows"
 			case h.mir[n].lateReplay:
-				class, why = "replay_races_with_commit_loop", "the node applied its start-up replay after entries committed since"
+				class, why = "stale_after_late_replay", "the node applied its start-up replay after entries committed since"
 			case h.prof == "multishard":
 				class, why = "snapshot_covers_unflushed_shard", "the raft snapshot index taken at the flush of another shard covered the entry"
 			}
@@ -680,7 +717,7 @@ func (h *H) after(action string) {
 	if h.err != nil {
 		return
 	}
-	line := h.c.Emit("digest", h.digest())
+	line := h.c.Emit(h.digestOp(), h.digest())
 	h.check(line)
 }
 
@@ -740,6 +777,18 @@ func (h *H) actFlushBegin(n, sh int) {
 	_, busy := x.st.imm[sh]
 	x.st.mu.Unlock()
 	if !h.mir[n].up || busy {
+		return
+	}
+	if h.real {
+		// the real shard flushes in one go: tsstoreImpl.writeSnapshot through ForceFlush
+		if err := x.st.flushReal(sh); err != nil {
+			h.fail("flush: %v", err)
+			return
+		}
+		h.emit(fmt.Sprintf("flushb %d %d", n, sh))
+		h.emit(fmt.Sprintf("flushe %d %d", n, sh))
+		h.c.Count("flush-real")
+		h.after(fmt.Sprintf("flush n%d sh%d", n, sh))
 		return
 	}
 	x.st.flushBegin(sh)
@@ -844,19 +893,7 @@ func (h *H) actHoldIn(n int, on bool) {
 // has not been applied yet
 func (h *H) actRestartLate(n int) { h.restart(n, true) }
 
-func (h *H) actReplayLate(n int) {
-	if !h.mir[n].up || !h.mir[n].replayPending {
-		return
-	}
-	if !h.cl.releaseReplay(n) {
-		h.fail("replay of node %d does not end", n)
-		return
-	}
-	h.mir[n].replayPending = false
-	h.emit(fmt.Sprintf("replaylate %d", n))
-	h.c.Count("replay-late")
-	h.after(fmt.Sprintf("replay-late n%d", n))
-}
+func (h *H) actReplayLate(n int) {} // the replay is released inside the restart action
 
 func (h *H) actRestart(n int) { h.restart(n, false) }
 
@@ -868,7 +905,23 @@ func (h *H) restart(n int, late bool) {
 		h.fail("restart node %d: %v", n, err)
 		return
 	}
-	o := h.cl.nodes[n].observe()
+	x := h.cl.nodes[n]
+	o := x.observe() // before any traffic reaches the node
+	raced := false
+	if late {
+		// The store is up and follows the leader while its start-up replay has not been applied
+		// yet. What the commit loop applies in this window lands under the replayed, older rows.
+		if h.leader >= 0 && h.mir[h.leader].up {
+			_ = h.cl.tickNode(h.leader, 3)
+		}
+		waitFor(300*time.Millisecond, func() bool { return atomic.LoadInt64(&x.st.applied) > 0 })
+		raced = atomic.LoadInt64(&x.st.applied) > 0
+		if !h.cl.releaseReplay(n) {
+			h.fail("replay of node %d does not end", n)
+			return
+		}
+		h.c.Count("restart-late")
+	}
 	m := &h.mir[n]
 	m.up, m.seq, m.failPlan = true, 0, 0
 	m.pub, m.applied, m.sc = o.commit, o.commit, o.snap
@@ -876,16 +929,13 @@ func (h *H) restart(n int, late bool) {
 	if m.last > uint64(len(h.clog)) {
 		m.last = uint64(len(h.clog))
 	}
-	m.lateReplay, m.replayPending = late, late
-	if late {
-		h.emit(fmt.Sprintf("restartlate %d", n))
-		h.c.Count("restart-late")
-		h.after(fmt.Sprintf("restart-late n%d", n))
-		return
+	m.lateReplay = raced
+	line := h.emit(fmt.Sprintf("restart %d", n))
+	if raced {
+		h.violation(line, "commit_loop_before_replay", fmt.Sprintf("node %d applied entries committed since its restart before its start-up replay | %s", n, strings.Join(h.log, " ; ")))
 	}
-	h.emit(fmt.Sprintf("restart %d", n))
 	h.c.Count("restart")
-	h.after(fmt.Sprintf("restart n%d", n))
+	h.after(fmt.Sprintf("restart n%d late=%v", n, late))
 }
 
 func (h *H) actHold(n int, on bool) {
@@ -1015,7 +1065,7 @@ func (h *H) checkAvail(what, class string) {
 		f := h.cl.nodes[i].observe().first
 		for m := 0; m < h.n; m++ {
 			if h.mir[m].last+1 < f {
-				h.violation(h.c.Emit("digest", h.digest()), class,
+				h.violation(h.c.Emit(h.digestOp(), h.digest()), class,
 					fmt.Sprintf("after %s node %d keeps entries from %d on, member %d holds entries up to %d only | %s", what, i, f, m, h.mir[m].last, strings.Join(h.log, " ; ")))
 				return
 			}
@@ -1092,6 +1142,7 @@ func Run(c *hx.Ctx) error {
 	raft.SetLogger(&raft.DefaultLogger{Logger: log.New(io.Discard, "", 0)})
 	config.SetElectionTick(4)
 	config.SetHeartbeatTick(1)
+	config.SetShardMemTableSizeLimit(1 << 30) // no size-triggered flush behind the harness's back
 	config.SetWaitCommitTimeout(10 * time.Minute) // no wall-clock outcome: a writer whose proposal is lost ends with the kill of its node
 	config.GetStoreConfig().ClearEntryLogTolerateTime = toml.Duration(6 * time.Hour)
 	config.GetStoreConfig().ClearEntryLogTolerateSize = 1 // deleteEntryLogBySize: the limit is always exceeded when the harness calls it
